@@ -235,15 +235,15 @@ Proof.
   intros Wx Wy Dx Dy. unfold lie_binop, broadcast_inputs.
   destruct (broadcast_shapes (tshape x) (tshape y)) as [o|] eqn:Eo; [|reflexivity].
   destruct (broadcast_shapes_facts _ _ _ Eo) as (Lo & Cx & Cy).
-  fold (sh_of o).
+  cbv zeta. change (match o with [] => [1] | _ :: _ => o end) with (sh_of o).
   (* compatibility with the shape used for the expansion *)
-  assert (Lsx : length (tshape x) <= length (sh_of o)) by (destruct o; simpl in *; lia).
-  assert (Lsy : length (tshape y) <= length (sh_of o)) by (destruct o; simpl in *; lia).
+  assert (Lsx : length (tshape x) <= length (sh_of o)) by (destruct o; simpl in Lo |- *; lia).
+  assert (Lsy : length (tshape y) <= length (sh_of o)) by (destruct o; simpl in Lo |- *; lia).
   assert (Cx' : compat (pad (length (sh_of o)) (tshape x)) (sh_of o)).
-  { destruct o; [|exact Cx]. simpl in Lo. assert (tshape x = []) as -> by (destruct (tshape x); simpl in *; [auto|lia]).
+  { destruct o; [|exact Cx]. simpl in Lo. assert (tshape x = []) as -> by (apply length_zero_iff_nil; lia).
     repeat constructor. }
   assert (Cy' : compat (pad (length (sh_of o)) (tshape y)) (sh_of o)).
-  { destruct o; [|exact Cy]. simpl in Lo. assert (tshape y = []) as -> by (destruct (tshape y); simpl in *; [auto|lia]).
+  { destruct o; [|exact Cy]. simpl in Lo. assert (tshape y = []) as -> by (apply length_zero_iff_nil; lia).
     repeat constructor. }
   destruct (expand_some _ _ Lsx Cx') as [sx Ex]. destruct (expand_some _ _ Lsy Cy') as [sy Ey].
   destruct (flat_expand_spec dA x _ _ Dx Ex) as (fx & Fx & Lx & Nx).
@@ -260,10 +260,10 @@ Proof.
   { destruct o; [|reflexivity]. inversion Hi; subst. reflexivity. }
   assert (Bx : bidx (tshape x) (ix_of o i) = bidx (tshape x) i).
   { destruct o; [|reflexivity]. inversion Hi; subst. simpl in Lo.
-    assert (tshape x = []) as -> by (destruct (tshape x); simpl in *; [auto|lia]). reflexivity. }
+    assert (tshape x = []) as -> by (apply length_zero_iff_nil; lia). reflexivity. }
   assert (By : bidx (tshape y) (ix_of o i) = bidx (tshape y) i).
   { destruct o; [|reflexivity]. inversion Hi; subst. simpl in Lo.
-    assert (tshape y = []) as -> by (destruct (tshape y); simpl in *; [auto|lia]). reflexivity. }
+    assert (tshape y = []) as -> by (apply length_zero_iff_nil; lia). reflexivity. }
   split; [rewrite <- Bx; eapply bidx_valid; eauto|].
   split; [rewrite <- By; eapply bidx_valid; eauto|].
   unfold tget at 1. simpl. rewrite <- Rv.
@@ -290,20 +290,6 @@ Proof.
 Qed.
 End Spec.
 
-(* incompatibility is an error: PyTorch's rule, dimension by dimension from the right *)
-Lemma broadcast_shapes_sym_none a b : broadcast_shapes a b = None -> broadcast_shapes b a = None.
-Proof.
-  unfold broadcast_shapes. rewrite (Nat.max_comm (length b)).
-  generalize (pad (Nat.max (length a) (length b)) a) (pad (Nat.max (length a) (length b)) b).
-  induction l as [|x l IH]; intros m H; destruct m as [|y m]; simpl in *; try discriminate; auto.
-  assert (Eb : bdim y x = bdim x y).
-  { unfold bdim. rewrite (Nat.eqb_sym y x). destruct (x =? y) eqn:E; [apply Nat.eqb_eq in E; now subst|].
-    destruct (x =? 1) eqn:E1, (y =? 1) eqn:E2; auto.
-    apply Nat.eqb_eq in E1, E2. subst. discriminate. }
-  rewrite Eb. destruct (bdim x y); auto.
-  destruct (bcast_eq l m) eqn:E; [discriminate|]. now rewrite (IH _ E).
-Qed.
-
 (* ---------------- __torch_function__ ---------------- *)
 Lemma torch_function_handled name lt lts leaves : handled name = true ->
   torch_function (Some name) (Some leaves) (lt :: lts) =
@@ -321,3 +307,97 @@ Proof. intros H. unfold torch_function. now rewrite H. Qed.
 Lemma torch_function_kwargs_only name leaves : handled name = true ->
   torch_function (Some name) (Some leaves) [] = TFIndexError.
 Proof. intros H. unfold torch_function. now rewrite H. Qed.
+
+(* ---------------- the concrete operations ---------------- *)
+Section LieSpec.
+Context {F : Type} {NF : Num F}.
+
+Lemma gdim_pos g : gdim g <> 0. Proof. destruct g as [|[|[|]]]; simpl; lia. Qed.
+Lemma adim_pos g : adim g <> 0. Proof. destruct g as [|[|[|]]]; simpl; lia. Qed.
+
+(* the statement shared by all binary operations *)
+Definition binop_spec {A B C} (dA : A) (dB : B) (dC : C) (op : A -> B -> C) (dout : nat)
+           (x : tensor A) (y : tensor B) (res : option (tensor C)) : Prop :=
+  match broadcast_shapes (tshape x) (tshape y) with
+  | Some o =>
+      exists r, res = Some r /\ tshape r = o /\ tdim r = dout /\ wf r /\
+        forall i, valid_idx o i ->
+          valid_idx (tshape x) (bidx (tshape x) i) /\ valid_idx (tshape y) (bidx (tshape y) i) /\
+          tget dC r i = op (tget dA x (bidx (tshape x) i)) (tget dB y (bidx (tshape y) i))
+  | None => res = None
+  end.
+
+Theorem lie_binop_meets_spec {A B C} (dA : A) (dB : B) (dC : C) (op : A -> B -> C) dout x y :
+  wf x -> wf y -> tdim x <> 0 -> tdim y <> 0 ->
+  binop_spec dA dB dC op dout x y (lie_binop dA dB op dout dout x y).
+Proof. intros. unfold binop_spec. now apply lie_binop_spec. Qed.
+
+Theorem lt_mul_spec g (x y : tensor (list F)) : wf x -> wf y -> tdim x = gdim g -> tdim y <> 0 ->
+  binop_spec [] [] [] (g_mul g) (gdim g) x y (lt_mul g x y).
+Proof.
+  intros Wx Wy Dx Dy. unfold lt_mul. rewrite Dx. apply lie_binop_meets_spec; auto.
+  rewrite Dx. apply gdim_pos.
+Qed.
+
+Theorem lt_act_spec g (x p : tensor (list F)) : wf x -> wf p -> tdim x <> 0 ->
+  (tdim p = 3 -> binop_spec [] [] [] (g_act g) 3 x p (lt_act g x p)) /\
+  (tdim p = 4 -> binop_spec [] [] [] (g_act4 g) 4 x p (lt_act g x p)) /\
+  (tdim p <> 3 -> tdim p <> 4 -> lt_act g x p = None).
+Proof.
+  intros Wx Wp Dx. unfold lt_act. split; [|split].
+  - intros E. rewrite E. simpl. apply lie_binop_meets_spec; auto. lia.
+  - intros E. rewrite E. simpl. apply lie_binop_meets_spec; auto. lia.
+  - intros N3 N4. apply Nat.eqb_neq in N3, N4. now rewrite N3, N4.
+Qed.
+
+Theorem lt_adj_spec g tr (x a : tensor (list F)) : wf x -> wf a -> tdim x <> 0 -> tdim a = adim g ->
+  binop_spec [] [] [] (g_adj g tr) (adim g) x a (lt_adj g tr x a).
+Proof.
+  intros Wx Wa Dx Da. unfold lt_adj. rewrite Da. apply lie_binop_meets_spec; auto.
+  rewrite Da. apply adim_pos.
+Qed.
+
+Theorem lt_unary_spec (op : list F -> list F) dout (x : tensor (list F)) : wf x ->
+  let r := lie_unop op dout x in
+  tshape r = tshape x /\ tdim r = dout /\ wf r /\
+  forall i, valid_idx (tshape x) i -> tget [] r i = op (tget [] x i).
+Proof. apply lie_unop_spec. Qed.
+End LieSpec.
+
+(* the decision of LieTensor.__torch_function__ *)
+Theorem wrap_decision name :
+  (handled name = true ->
+     (forall lt lts leaves, exists out warn,
+        torch_function (Some name) (Some leaves) (lt :: lts) = TFData out warn /\
+        length out = length leaves /\ length warn = length leaves /\
+        forall n, n < length leaves ->
+          match nth n leaves LOther with
+          | LPlain shp => nth n out LOther = LLie (Some lt) shp /\
+                          nth n warn false = negb (last_is shp (dimension lt))
+          | l => nth n out LOther = l /\ nth n warn false = false
+          end) /\
+     (forall leaves, torch_function (Some name) (Some leaves) [] = TFIndexError)) /\
+  (handled name = false ->
+     forall leaves lts, torch_function (Some name) (Some leaves) lts = TFData leaves (map (fun _ => false) leaves)) /\
+  (forall lts, torch_function (Some name) None lts = TFNone).
+Proof.
+  split; [|split].
+  - intros H. split.
+    + intros lt lts leaves. rewrite torch_function_handled by exact H.
+      eexists; eexists; split; [reflexivity|]. rewrite !map_length. split; [reflexivity|]. split; [reflexivity|].
+      intros n Hn.
+      rewrite (nth_indep (map (fun l => fst (wrap_leaf lt l)) leaves) LOther (fst (wrap_leaf lt LOther))) by (rewrite map_length; exact Hn).
+      rewrite (nth_indep (map (fun l => snd (wrap_leaf lt l)) leaves) false (snd (wrap_leaf lt LOther))) by (rewrite map_length; exact Hn).
+      rewrite (map_nth (fun l => fst (wrap_leaf lt l))), (map_nth (fun l => snd (wrap_leaf lt l))).
+      destruct (nth n leaves LOther); simpl; auto.
+    + intros leaves. now apply torch_function_kwargs_only.
+  - intros H leaves lts. now apply torch_function_unhandled.
+  - reflexivity.
+Qed.
+
+Open Scope string_scope.
+Lemma handled_examples :
+  handled "cat" = true /\ handled "__getitem__" = true /\ handled "index_select" = true /\
+  handled "sum" = false /\ handled "abs" = false.
+Proof. repeat split; reflexivity. Qed.
+Close Scope string_scope.
